@@ -2,6 +2,7 @@
    failing calls (the re-raise path is findings D16/D23); proofs in Proofs/ExecLive.v. *)
 From Coq Require Import List Bool Arith.
 From EL Require Import Model.Exec Model.ExecInv Proofs.ExecLiveCor.
+From EL Require Import Model.StepExec Model.LiveSpec Proofs.StepSafe Proofs.StepLive Proofs.StepLiveCor.
 From EL Require Import Model.StepExec Model.DepExec Model.LiveSpec Proofs.DepSafe Proofs.DepLiveCor.
 Import ListNotations.
 
@@ -41,3 +42,15 @@ Proof.
   pose proof (dep_rest c n prog d k H1 H2 H3 H4 H5 H6 H7) as [_ [_ [Hp [Hw Hr]]]]. auto.
 Qed.
 Print Assumptions C12_resolver_exited_at_rest.
+
+(* the per-call-process executor: at rest every call process has exited, every call thread and the
+   dispatcher have finished *)
+Theorem C12_percall_exited_at_rest :
+  forall c n prog x,
+    xnofail c -> fits c -> wf_prog n prog -> xreach c (xinit n prog) x ->
+    xenabled c x = [] ->
+    (forall p, In p (ps (base x)) -> palive p = false) /\ (forall w, In w (ws (base x)) -> wdone w = true) /\ disp x = DDone.
+Proof.
+  intros c n prog x H1 H2 H3 H4 H5. pose proof (step_rest c n prog x H1 H2 H3 H4 H5) as [_ [_ [Hp [Hw Hd]]]]. auto.
+Qed.
+Print Assumptions C12_percall_exited_at_rest.
